@@ -195,6 +195,20 @@ def oneof_shared_dep() -> Spec:
     ], "A", "O")
 
 
+def oneof_diamond_shared() -> Spec:
+    """As oneof_diamond, but the fallback candidate C2 also needs S: when the first candidate fails while S is still
+    in flight (or being saved), the work done for S must remain usable by C2."""
+    return Spec("oneof_diamond_shared", [
+        Node("A"),
+        Node("F", (("a", In("A")),), kinds=F),
+        Node("S", (("a", In("A")),)),
+        Node("M", (("f", In("F")),)),
+        Node("C1", (("m", In("M")), ("s", In("S")))),
+        Node("C2", (("s", In("S")),)),
+        Node("O", (("v", OneOf(("C1", "C2"))),)),
+    ], "A", "O", dur_nodes=("F", "S"))
+
+
 def oneof_shared_inflight() -> Spec:
     """A (slow, healthy) node Sh is needed by the first candidate's sub-pipeline AND by the main pipeline; the
     candidate fails at an intermediate node (Fl -> Mid -> C1) while Sh may still be in flight."""
@@ -388,6 +402,6 @@ TEMPLATES: Dict[str, Callable[..., Spec]] = {f.__name__: f for f in [
     chain, rhombus, fan, mixed_modes, switch_basic, switch_deep, switch_nested, switch_shared_case,
     switch_case_also_input, oneof_basic, oneof_depth, oneof_three, oneof_nested, oneof_sibling,
     oneof_chained, oneof_with_switch, oneof_with_switch_deep, oneof_shared_dep, oneof_diamond,
-    oneof_shared_inflight, oneof_reached_twice, retry_attempts_zero, rec_simple, rec_inner_start, rec_outside_reader,
+    oneof_shared_inflight, oneof_diamond_shared, oneof_reached_twice, retry_attempts_zero, rec_simple, rec_inner_start, rec_outside_reader,
     rec_two_scopes, rec_outside_reader_slow, rec_side_input, rec_with_switch, rec_with_oneof, rec_in_oneof, rec_nested, retry_sibling, retry_chain,
 ]}
